@@ -43,7 +43,7 @@ PROF_TASK = gen.Profile(kinds=["task"] * 6 + ["region", "state"],
 @st.composite
 def cases(draw):
     kind = draw(st.sampled_from(KINDS))
-    base = draw(gen.history(PROF_TASK if kind.startswith("nonjumbo") else PROF))
+    base = draw(gen.history(PROF_TASK if (kind.startswith("nonjumbo") or (kind == "payload" and draw(st.booleans()))) else PROF))
     return {"base": base, "kind": kind, "a": draw(st.integers(0, 10 ** 6)), "b": draw(st.integers(0, 10 ** 6)),
             "c": draw(st.integers(0, 255))}
 
@@ -196,16 +196,29 @@ def corrupt(case):
             mcv = "XYZ#$@"[c % 6] + "Ab"
         else:
             m = evs[pos - 1][0][0]
-            mcv = m + "\x7f!~Z"[c % 4] + "qZ9_"[b % 4]
-            if mcv in R.regions() or mcv in R.IGNORED:
-                return None
+            if c % 6 < 4:
+                mcv = m + "\x7f!~Z"[c % 4] + "qZ9_"[b % 4]
+            else:
+                # a code that differs from a handled one (the previous event's) only in the top
+                # bit of its category or value byte
+                prev = evs[pos - 1][0]
+                mcv = prev[0] + (chr(ord(prev[1]) | 0x80) + prev[2] if c % 6 == 4 else prev[1] + chr(ord(prev[2]) | 0x80))
+            if mcv in R.regions() or mcv in R.IGNORED or mcv[:2] in ("OB", "OU"):
+                return None     # (bursts and unordered-region markers: the value byte is ignored)
         evs.insert(pos, T.ev(mcv, clk))
         return base, "insert %r at %d of stream %d" % (mcv, pos, si)
     if kind == "payload":
-        idx = [i for i, e in enumerate(evs) if e[0] in PAYLOAD_OPS]
-        if not idx:
+        # pick the event code first (OHx is in every stream, task events are rare), then one occurrence
+        # (in the stream that has most of them)
+        si = max(range(len(streams)), key=lambda j: (len({e[0] for e in streams[j]["events"] if e[0] in PAYLOAD_OPS}), -((j - a) % len(streams))))
+        s = streams[si]
+        evs = s["events"]
+        present = sorted({e[0] for e in evs if e[0] in PAYLOAD_OPS})
+        if not present:
             return None
-        i = idx[b % len(idx)]
+        code = present[b % len(present)]
+        idx = [i for i, e in enumerate(evs) if e[0] == code]
+        i = idx[(b // 17) % len(idx)]
         sizes = PAYLOAD_OPS[evs[i][0]]
         n = sizes[c % len(sizes)]
         old = bytes.fromhex(evs[i][2])
@@ -249,7 +262,10 @@ def run(case, ctx):
     finally:
         ctx.rmdir(d)
     nstreams = len(case["base"]["streams"])
-    return {"nt": nstreams >= 2 or bool(case["base"].get("_models")), "cls": ["kind:" + case["kind"]]}
+    cls = ["kind:" + case["kind"]]
+    if case["kind"] == "payload":
+        cls.append("payload:" + desc.split()[2])
+    return {"nt": nstreams >= 2 or bool(case["base"].get("_models")), "cls": cls}
 
 
 def parts(tier):
